@@ -261,11 +261,9 @@ func checkC01(c *Ctx) {
 
 	// R3: publish handlers = functions of package admin that invoke EnqueueBatch
 	nPub := 0
-	for _, fn := range p.FuncsInPkg("admin") {
-		if len(allCalls(fn, isBatchEnqueue)) > 0 {
-			nPub++
-			ackAfterEnqueue(c, "C01.R3", p.View(fn), false) // response helpers of the package are part of the handler
-		}
+	for _, fn := range publishHandlers(p) {
+		nPub++
+		ackAfterEnqueue(c, "C01.R3", p.View(fn), false) // response helpers of the package are part of the handler (inlined view)
 	}
 	c.Floor("C01.R3", "publish_handlers", nPub, 2)
 
